@@ -149,17 +149,38 @@ def path(ctx, arg):
         setf(I, ov, 'pre_release_label', some(mkstring(ov_label)))
     if bp_label is not None:
         setf(I, bp, 'bump_pre_release_label', some(mkstring(bp_label)))
+    # index specs: "<index>[=<value>]"; a value written "#k" stands for k symbolic decimal digits (any value <= u32::MAX,
+    # 0 included), so boundary amounts are found by the solver rather than listed
+    symvals = {}          # (kind, sec, position) -> (digit chars, z3 value)
+
+    def spec_string(kind, sec, j, sp):
+        if '=#' not in sp:
+            return mkstring(sp)
+        i, k = sp.split('=#')
+        ds = [w.fresh_int('sv_%s_%s_%d_%d' % (kind, sec, j, x), 48, 57) for x in range(int(k))]
+        val = z3.Sum([(d - 48) * 10 ** (len(ds) - 1 - x) for x, d in enumerate(ds)]) if len(ds) > 1 else ds[0] - 48
+        w.assume(val <= U32)
+        symvals[(kind, sec, j)] = (ds, val)
+        return StringObj([ord(c) for c in i + '='] + ds)
     for sec in ('core', 'extra_core', 'build'):
         if arg.get('ov_' + sec):
-            setf(I, ov, sec, VecObj([mkstring(s) for s in arg['ov_' + sec]]))
+            setf(I, ov, sec, VecObj([spec_string('ov', sec, j, sp) for j, sp in enumerate(arg['ov_' + sec])]))
         if arg.get('bp_' + sec):
-            setf(I, bp, 'bump_' + sec, VecObj([mkstring(s) for s in arg['bp_' + sec]]))
+            setf(I, bp, 'bump_' + sec, VecObj([spec_string('bp', sec, j, sp) for j, sp in enumerate(arg['bp_' + sec])]))
+
+    def concrete_arg(m):
+        a = dict(arg)
+        for (kind, sec, j), (ds, _v) in symvals.items():
+            lst = list(a[kind + '_' + sec])
+            lst[j] = lst[j].split('=#')[0] + '=' + ''.join(chr(m.eval(d, model_completion=True).as_long()) for d in ds)
+            a[kind + '_' + sec] = lst
+        return a
     args_adt = Adt('ResolvedArgs', 0, [ov, bp, Adt('InputConfig', 0, []), Adt('OutputConfig', 0, [])])
     zp = ValPtr(zerv)
     name = arg.get('name', '')
 
     def viol(clause, m, detail):
-        ctx.violation(clause=clause, arg=arg, start=sv.concrete(m), flags=concrete_flags(m, ovp, ovv, bpp, bpv), detail=detail, vkey='%s|%s' % (clause, name))
+        ctx.violation(clause=clause, arg=concrete_arg(m), start=sv.concrete(m), flags=concrete_flags(m, ovp, ovv, bpp, bpv), detail=detail, vkey='%s|%s' % (clause, name))
     try:
         r = I.call('Zerv::apply_component_processing', [zp, ValPtr(args_adt)])
     except Panic as e:
@@ -181,12 +202,12 @@ def path(ctx, arg):
 
     def section(sec):
         specs = {}
-        for s in arg.get('ov_' + sec, []):
+        for j, s in enumerate(arg.get('ov_' + sec, [])):
             i, v = s.split('=')
-            specs.setdefault(norm_index(i, len(comps[sec])), [None, None])[0] = int(v) if v.isdigit() else None
-        for s in arg.get('bp_' + sec, []):
+            specs.setdefault(norm_index(i, len(comps[sec])), [None, None])[0] = symvals[('ov', sec, j)][1] if v.startswith('#') else (int(v) if v.isdigit() else None)
+        for j, s in enumerate(arg.get('bp_' + sec, [])):
             i, v = (s.split('=') + ['1'])[:2]
-            specs.setdefault(norm_index(i, len(comps[sec])), [None, None])[1] = int(v)
+            specs.setdefault(norm_index(i, len(comps[sec])), [None, None])[1] = symvals[('bp', sec, j)][1] if v.startswith('#') else int(v)
         for i in sorted(specs):
             o, b = specs[i]
             c = comps[sec][i]
@@ -194,7 +215,8 @@ def path(ctx, arg):
             zero = z3.IntVal(0)
             if c[0] == 'var':
                 lv = {'Major': 'major', 'Minor': 'minor', 'Patch': 'patch', 'Epoch': 'epoch', 'Post': 'post', 'Dev': 'dev', 'PreRelease': 'pre_release_num'}[c[1]]
-                a = (one if o is not None else zero, z3.IntVal(o or 0), one if b is not None else zero, z3.IntVal(b or 0))
+                zv = lambda x: x if z3.is_expr(x) else z3.IntVal(x or 0)
+                a = (one if o is not None else zero, zv(o), one if b is not None else zero, zv(b))
                 if lv == 'pre_release_num':
                     st.pre_num_level(*a)
                 else:
@@ -241,7 +263,7 @@ def path(ctx, arg):
         res['pre_release'] = dict(label=['alpha', 'beta', 'rc'][lb], number=oval(pr.fields[0].fields[1]))
     else:
         res['pre_release'] = None
-    ctx.res.witness = dict(arg=arg, start=sv.concrete(m0), flags=concrete_flags(m0, ovp, ovv, bpp, bpv), result=res)
+    ctx.res.witness = dict(arg=concrete_arg(m0), start=sv.concrete(m0), flags=concrete_flags(m0, ovp, ovv, bpp, bpv), result=res)
     m = w.find(z3.Or(conds))
     if m is not None:
         viol('law', m, 'result differs from processing the levels in precedence order (override, then bump, bump resets lower levels)')
@@ -303,7 +325,10 @@ def args_for(tier):
     # index-addressed operations (section level), alone and against by-name flags
     idx = [dict(bp_core=['0']), dict(bp_core=['1=3']), dict(bp_core=['~1=2']), dict(bp_core=['-3']), dict(ov_core=['1=9']),
            dict(ov_core=['0=4'], bp_core=['0=2']), dict(bp_extra_core=['1']), dict(bp_extra_core=['2=5']), dict(ov_extra_core=['3=4']),
-           dict(bp_extra_core=['-1']), dict(ov_extra_core=['0=2'], bp_extra_core=['~2']), dict(bp_core=['2', '0'])]
+           dict(bp_extra_core=['-1']), dict(ov_extra_core=['0=2'], bp_extra_core=['~2']), dict(bp_core=['2', '0']),
+           # symbolic amounts: one digit (0 included) and ten digits (up to u32::MAX)
+           dict(bp_core=['0=#1']), dict(bp_core=['-2=#1']), dict(ov_core=['1=#1']), dict(ov_core=['0=#1'], bp_core=['0=#1']), dict(bp_extra_core=['0=#1']),
+           dict(ov_extra_core=['2=#1'], bp_extra_core=['2=#1']), dict(bp_core=['1=#10']), dict(ov_extra_core=['3=#10'])]
     wins = [(), ('patch',), ('post',), ('major', 'dev')] if quick else [(), ('patch',), ('post',), ('major', 'dev'), ('epoch', 'pre_release_num'), ('minor', 'post')]
     for d in idx:
         for combo in wins:
